@@ -32,7 +32,7 @@ type c14binding struct {
 type c14req struct {
 	PathKind string // own unknown-id unknown-configuration root trailing
 	Exit     int
-	Resp     string // empty allow allow-warnings allow-patch deny-message deny-quiet null emptyobj truncated wrong-types array
+	Resp     string // empty allow allow-warnings allow-patch deny-message deny-quiet deny-warnings null emptyobj truncated wrong-types array
 	Second   string // none metrics patch
 }
 
@@ -54,6 +54,8 @@ func c14respBody(kind string) string {
 		return `{"allowed":false,"message":"because it is Tuesday"}`
 	case "deny-quiet":
 		return `{"allowed":false}`
+	case "deny-warnings":
+		return `{"allowed":false,"message":"no, and","warnings":["careful","second warning"]}`
 	case "null":
 		return `null`
 	case "emptyobj":
@@ -71,7 +73,7 @@ func c14respBody(kind string) string {
 func TestC14(t *testing.T) {
 	e := vlib.GetEnv()
 	var reqs []c14req
-	resps := []string{"empty", "allow", "allow-warnings", "allow-patch", "deny-message", "deny-quiet", "null", "emptyobj", "truncated", "wrong-types", "array"}
+	resps := []string{"empty", "allow", "allow-warnings", "allow-patch", "deny-message", "deny-quiet", "deny-warnings", "null", "emptyobj", "truncated", "wrong-types", "array"}
 	for _, pk := range []string{"own", "own", "unknown-id", "unknown-configuration", "root"} {
 		for _, ex := range []int{0, 1} {
 			for _, r := range resps {
@@ -301,6 +303,14 @@ func c14judge(res *vlib.Result, rq c14req, bd c14binding, uid, path string, code
 			}
 			if r.PatchType == nil || *r.PatchType != "JSONPatch" {
 				res.Violate("patch-type-missing/"+kind, "%s", line)
+			}
+		case "deny-warnings":
+			// the answer carries the hook's message and warnings whatever the verdict is
+			if strings.Join(r.Warnings, "|") != "careful|second warning" {
+				res.Violate("warnings-not-relayed/denied", "warnings %v\n%s", r.Warnings, line)
+			}
+			if r.Status == nil || r.Status.Message != "no, and" {
+				res.Violate("message-not-relayed/denied-with-warnings", "%s", line)
 			}
 		case "deny-message":
 			if r.Status == nil || r.Status.Message != "because it is Tuesday" {
